@@ -112,6 +112,9 @@ func randGradStops(r *rand.Rand, n int) []stopJ {
 }
 
 // interesting pixels for a linear row (a, b, c): those whose centre maps to k/2 for k in -6..6, plus a block and far pixels
+// keptGradient is initialised once per case and never replaced.
+var keptGradient render.Gradient
+
 func probePixels(r *rand.Rand, m [6]float32) [][2]int {
 	var ps [][2]int
 	for y := -2; y < 10; y++ {
@@ -217,6 +220,16 @@ func driveC15(args []string) error {
 				emitPix("Gradient.Init", &g, &g, gcase.stops, p[0], p[1])
 			}
 			stats["direct"]++
+		}
+		// (A'') one Gradient object initialised again and again (round 10), as the Renderer does with its own: stop counts go
+		// up and down from case to case, nothing of the previous configuration may remain
+		if keptGradient.Init(render.Shape(gcase.shape), render.Spread(gcase.spread), aff, st) {
+			for pi, p := range probePixels(rng, gcase.m) {
+				if pi%3 == 0 {
+					emitPix("Gradient.Init/reused-object", &keptGradient, &keptGradient, gcase.stops, p[0], p[1])
+				}
+			}
+			stats["direct_reused_object"]++
 		}
 		// (A') the same gradient assembled by hand from the public helpers: the ranges are built by two AppendRanges
 		// calls (the second continues from the first's final stop)
@@ -420,6 +433,61 @@ func driveC15(args []string) error {
 						emitPix("Generator."+[]string{"SetCircularGradient", "SetEllipticalGradient", "SetLinearGradient", "SetLinearGradient"}[kind], c.img, gc, nil, p[0], p[1])
 					}
 					stats["helpers"]++
+				}
+			}
+		}
+	}
+	// hard edges (round 10): stops at neighbouring float32 offsets, a linear gradient whose pixel centres fall exactly on
+	// them (one pixel = one unit in the last place): at a stop's own offset the colour is that stop's colour
+	{
+		type edgeEv struct {
+			Ev     string  `json:"ev"`
+			Path   string  `json:"path"`
+			Shape  int     `json:"shape"`
+			Spread int     `json:"spread"`
+			Stops  []stopJ `json:"stops"`
+			M      []D     `json:"m"`
+			X      int     `json:"x"`
+			Y      int     `json:"y"`
+			Hit    int     `json:"hit"`
+			Got    [4]int  `json:"got"`
+		}
+		u := math.Ldexp(1, -24) // the spacing of float32 numbers in [1/2, 1)
+		cols := [][4]int{{255, 0, 0, 255}, {0, 255, 0, 255}, {0, 0, 255, 255}, {255, 255, 255, 255}, {0, 0, 0, 255}, {20, 0, 40, 60}}
+		for ci, ec := range []struct {
+			offs []float64 // stop offsets
+			base float64   // offset of pixel 0
+			hits [][2]int  // pixel x -> stop index (1-based)
+		}{
+			{[]float64{0, 0.5, 0.5 + u, 0.5 + 2*u, 1}, 0.5, [][2]int{{0, 2}, {1, 3}, {2, 4}}},
+			{[]float64{0.25, 1 - u, 1}, 1 - u, [][2]int{{0, 2}, {1, 3}}},
+			{[]float64{0.5, 0.5 + u}, 0.5, [][2]int{{0, 1}, {1, 2}}},
+			{[]float64{0, 0.75 - u, 0.75, 0.75 + u}, 0.75 - u, [][2]int{{0, 2}, {1, 3}, {2, 4}}},
+			{[]float64{0, 0.5, 0.5 + 4*u, 1}, 0.5, [][2]int{{0, 2}, {4, 3}}}} {
+			for spread := 0; spread < 4; spread++ {
+				var st []render.Stop
+				var js []stopJ
+				for i, o := range ec.offs {
+					c := cols[(i+ci)%len(cols)]
+					st = append(st, render.Stop{Offset: o, RGBA64: color.RGBA64{uint16(c[0]) * 0x101, uint16(c[1]) * 0x101, uint16(c[2]) * 0x101, uint16(c[3]) * 0x101}})
+					js = append(js, stopJ{C: c, O: f32j(float32(o))})
+				}
+				aff := render.Aff3{u, 0, ec.base - u/2, 0, 0, 0}
+				var g render.Gradient
+				if !g.Init(render.ShapeLinear, render.Spread(spread), aff, st) {
+					continue
+				}
+				for _, h := range ec.hits {
+					for _, y := range []int{0, 3} {
+						r, gg, b, a := g.At(h[0], y).RGBA()
+						m := []D{}
+						for _, v := range aff {
+							m = append(m, d64j(v))
+						}
+						sh.Next().Emit(edgeEv{Ev: "edge", Path: "Gradient.Init/hard-edge", Shape: 0, Spread: spread, Stops: js, M: m, X: h[0], Y: y, Hit: h[1],
+							Got: [4]int{int(r), int(gg), int(b), int(a)}})
+						stats["edge"]++
+					}
 				}
 			}
 		}
